@@ -2,11 +2,13 @@
 (* C44 -- abstract (black-box) specification of a connection's shutdown, phrased
    over what its users can observe.  It knows nothing about sync.Once or contexts.
 
-     call / ret   Close, CloseUnknown, CloseWith, WritePacket or the read loop
+     call / ret   Close, CloseUnknown, CloseWith, WritePacket, a session handler switch
+                  (SetActiveSessionHandler / SwitchSessionHandler) or the read loop
                   starts / returns (ret carries "ok" | "closed" | "err", "closed"
                   meaning errors.Is(err, ErrClosedConn))
      peergone     the peer closes its end (read loop EOF, write errors follow)
-     teardown     SessionHandler.Disconnected() is invoked
+     teardown     SessionHandler.Disconnected() is invoked (on whichever handler of the
+                  connection: teardowns are counted per connection)
      inject       the peer sends packet n; the handler will panic with `kind` on it
      handled      SessionHandler.HandlePacket is invoked with packet n
      quiet        the peer stopped sending and waited for the loop to settle
@@ -45,7 +47,7 @@ Closers == {"close", "unknown", "closewith"}
 
 Call(t, op) ==
     /\ t \notin DOMAIN open
-    /\ op \in Closers \cup {"write", "loop"}
+    /\ op \in Closers \cup {"write", "loop", "switch"}
     /\ open' = Put(open, t, [op |-> op, late |-> returned])
     /\ reason' = (reason \/ op \in Closers)
     /\ UNCHANGED <<returned, teardowns, handler, injected, handled>>
@@ -65,7 +67,7 @@ Ret(t, r) ==
     /\ LET o == open[t] IN
          /\ (o.op = "write" /\ o.late) => r = "closed"       \* later writes report closed
          \* a failed write closes the connection; so does every closing call and the loop's exit
-         /\ returned' = (returned \/ o.op # "write" \/ r = "err")
+         /\ returned' = (returned \/ o.op \notin {"write", "switch"} \/ (o.op = "write" /\ r = "err"))
          /\ reason' = (reason \/ o.op = "loop" \/ (o.op = "write" /\ r = "err"))
     /\ open' = Drop(open, t)
     /\ UNCHANGED <<teardowns, handler, injected, handled>>
